@@ -88,38 +88,76 @@ def check_budget(eng, run):
         run.ob("C11.cycle", f"clients._iter:{fn.short}", ok and not stale_exit, budget=var)
 
 
-def check_shapes(eng, run):
+def retry_wait_shape(eng):
+    """Shape of the selector wait in SelectorBaseTransport._retry (shared with C04.wait):
+    returns (retry fn, cap_ok, [(unbounded select call, guarded?)]) where cap_ok means every bounded select waits
+    min(remaining budget, retry interval) and an unbounded select() is guarded by `<that wait> == inf`."""
     db = eng.db
     retry = db.fn("lowlevel.api_sync.transports.base_selector:SelectorBaseTransport._retry")
-    # C11.cap: wait_time = timeout under `timeout <= retry_interval`, else retry_interval; select(wait_time)
+    budget = retry.params()[2].arg if len(retry.params()) > 2 else "timeout"
     ok = False
+    wt = lim = None
     for n in own_nodes(retry.node):
-        if isinstance(n, ast.If) and isinstance(n.test, ast.Compare) and isinstance(n.test.ops[0], (ast.LtE, ast.Lt)) and dotted(n.test.left) == "timeout":
-            lim = dotted(n.test.comparators[0])
-            b = [s for s in n.body if isinstance(s, (ast.Assign, ast.AnnAssign)) and dotted(getattr(s, "value", None)) == "timeout"]
-            o = [s for s in n.orelse if isinstance(s, (ast.Assign, ast.AnnAssign)) and dotted(getattr(s, "value", None)) == lim]
+        if isinstance(n, ast.If) and isinstance(n.test, ast.Compare) and isinstance(n.test.ops[0], (ast.LtE, ast.Lt)) and dotted(n.test.left) == budget:
+            lim_ = dotted(n.test.comparators[0])
+            b = [s for s in n.body if isinstance(s, (ast.Assign, ast.AnnAssign)) and dotted(getattr(s, "value", None)) == budget]
+            o = [s for s in n.orelse if isinstance(s, (ast.Assign, ast.AnnAssign)) and dotted(getattr(s, "value", None)) == lim_]
             if b and o:
                 tb = (b[0].targets[0] if isinstance(b[0], ast.Assign) else b[0].target)
                 to = (o[0].targets[0] if isinstance(o[0], ast.Assign) else o[0].target)
                 if dotted(tb) == dotted(to):
-                    wt = dotted(tb)
-                    sel = [c for c in own_nodes(retry.node) if isinstance(c, ast.Call) and isinstance(c.func, ast.Attribute) and c.func.attr == "select" and c.args]
-                    ok = bool(sel) and all(dotted(c.args[0]) == wt for c in sel)
-    if not ok:
-        run.finding("C11.cap", retry, retry.node, "the selector wait is no longer min(remaining budget, retry interval): a wake-up interval longer than the remaining budget overshoots the timeout")
-    run.ob("C11.cap", retry.short, ok)
-    # the unbounded select() is only reachable when the wait is infinite
+                    wt, lim = dotted(tb), lim_
+        # wait = min(timeout, retry_interval)
+        if isinstance(n, (ast.Assign, ast.AnnAssign)) and isinstance(getattr(n, "value", None), ast.Call) and isinstance(n.value.func, ast.Name) and n.value.func.id == "min" \
+                and budget in [dotted(a) for a in n.value.args] and len(n.value.args) == 2:
+            tgt = n.targets[0] if isinstance(n, ast.Assign) else n.target
+            wt = dotted(tgt)
+            lim = next(dotted(a) for a in n.value.args if dotted(a) != budget)
+    if wt is not None:
+        sel = [c for c in own_nodes(retry.node) if isinstance(c, ast.Call) and isinstance(c.func, ast.Attribute) and c.func.attr == "select" and c.args]
+        ok = bool(sel) and all(dotted(c.args[0]) == wt for c in sel)
+    # the unbounded select() is only reachable when the wait itself is infinite (i.e. both the budget and the interval are)
     sel0 = [c for c in own_nodes(retry.node) if isinstance(c, ast.Call) and isinstance(c.func, ast.Attribute) and c.func.attr == "select" and not c.args]
-    ok = True
+
+    def is_inf_test(t, names):
+        """`<name> == math.inf` / `math.isinf(<name>)` over one of names; a conjunction must cover... any one conjunct suffices"""
+        if isinstance(t, ast.BoolOp) and isinstance(t.op, ast.And):
+            return any(is_inf_test(v, names) for v in t.values)
+        if isinstance(t, ast.Compare) and len(t.ops) == 1 and isinstance(t.ops[0], (ast.Eq, ast.Is, ast.GtE)):
+            sides = [dotted(t.left) or "", dotted(t.comparators[0]) or ""]
+            return any(x.split(".")[-1] == "inf" for x in sides) and any(x in names for x in sides)
+        if isinstance(t, ast.Call) and (dotted(t.func) or "").split(".")[-1] == "isinf" and t.args:
+            return dotted(t.args[0]) in names
+        return False
+
+    def both_inf(t):
+        if isinstance(t, ast.BoolOp) and isinstance(t.op, ast.And):
+            return any(is_inf_test(v, {budget}) for v in t.values) and any(is_inf_test(v, {lim}) for v in t.values)
+        return False
+
+    out = []
     for c in sel0:
         guarded = False
         for n in own_nodes(retry.node):
-            if isinstance(n, ast.If) and any(c in list(ast.walk(s)) for s in n.body) and "inf" in ast.unparse(n.test) and isinstance(n.test, ast.Compare) and isinstance(n.test.ops[0], ast.Eq):
-                guarded = True
-        ok = ok and guarded
+            if isinstance(n, ast.If) and any(c in list(ast.walk(s)) for s in n.body):
+                if (wt is not None and is_inf_test(n.test, {wt})) or (lim is not None and both_inf(n.test)):
+                    guarded = True
+        out.append((c, guarded))
+    return retry, ok, out
+
+
+def check_shapes(eng, run):
+    db = eng.db
+    retry, ok, unbounded = retry_wait_shape(eng)
     if not ok:
-        run.finding("C11.thread", retry, sel0[0], "selector.select() without a timeout outside the `== math.inf` arm")
-    run.ob("C11.thread", f"{retry.short}:unbounded-select-only-if-inf", ok)
+        run.finding("C11.cap", retry, retry.node, "the selector wait is no longer min(remaining budget, retry interval): a wake-up interval longer than the remaining budget overshoots the timeout")
+    run.ob("C11.cap", retry.short, ok)
+    ok = all(g for _, g in unbounded)
+    for c, g in unbounded:
+        if not g:
+            run.finding("C11.thread", retry, c, "selector.select() without a timeout is not confined to the arm where the computed wait (min of budget and retry interval) is infinite: "
+                        "the periodic retry / the budget is ignored and the call can block for ever")
+    run.ob("C11.thread", f"{retry.short}:unbounded-select-only-if-inf", ok, unbounded_selects=len(unbounded))
     # C11.err: exhaustion -> ETIMEDOUT
     for q in ("lowlevel.api_sync.transports.base_selector:SelectorBaseTransport._retry", "lowlevel.api_sync.endpoints.stream:_DataReceiverImpl.receive",
               "lowlevel.api_sync.endpoints.stream:_BufferedReceiverImpl.receive"):
